@@ -25,6 +25,11 @@ def run(R, tier):
     rng = R.rng
     G.set_rng(rng)
     pool = {'A2': Algebra(2), 'P2': Algebra(2, 0, 1), 'A3': Algebra(3), 'P3': Algebra(3, 0, 1), 'M11': Algebra(1, 1), 'A1': Algebra(1)}
+    # several algebras of one process that agree in (p, q, r) / signature / repr but not in the order of their blades or generators:
+    # every widget must describe ITS algebra (signature, Cayley table, key2idx), whichever algebra drew first
+    pool.update({'P2c': Algebra.fromname('2DPGA'), 'M11r': Algebra(signature=[-1, 1]), 'P2s': Algebra(2, 0, 1, start_index=1)})
+    if tier != 'quick':
+        pool.update({'P3c': Algebra.fromname('3DPGA')})
     if tier != 'quick':
         pool.update({'A4': Algebra(4), 'S31': Algebra(3, 1), 'N': Algebra(signature=[0, -1, 1]), 'Z2': Algebra(0, 0, 2)})
     G.set_algebras(pool)
@@ -94,6 +99,23 @@ def run(R, tier):
         R.case(('meta', an), True)
         if not sig_ok or w.key2idx != {k: i for i, k in enumerate(canon)}:
             viol('meta', f'signature/key2idx of the widget do not describe Algebra {an}', algebra=an)
+        # the Cayley table sent to the front end: entry [J][I] = the product of the J-th and I-th canonical blade ('0', or +-name, scalar as 1)
+        names = list(alg.canon2bin)
+        want_cayley = []
+        for nj in names:
+            row = []
+            for ni in names:
+                pr = alg.blades[nj] * alg.blades[ni]
+                if not len(pr.keys()) or not any(pr.values()):
+                    row.append('0')
+                else:
+                    k, v = list(pr.keys())[0], list(pr.values())[0]
+                    nm = alg.bin2canon[k]
+                    row.append(('-' if v < 0 else '') + ('1' if nm == 'e' else nm))
+            want_cayley.append(row)
+        if [list(r) for r in w.cayley] != want_cayley:
+            viol('meta', f'the Cayley table of the widget does not describe Algebra {an} (first difference: '
+                         f'{next(((i, j, w.cayley[i][j], want_cayley[i][j]) for i in range(len(names)) for j in range(len(names)) if w.cayley[i][j] != want_cayley[i][j]), None)})', algebra=an)
         for k in range(-1, 2 ** alg.d + 2):
             got = w.key2idx.get(k)
             k2i.append({'check': f'opt_eqb Nat.eqb (key2idx {G.czl(canon)} {G.cz(k)}) {("(Some " + str(got) + "%nat)") if got is not None else "None"}',
